@@ -28,53 +28,6 @@ const (
 var hxMsgNames = []string{"empty-challenge", "valid-server-first", "foreign-nonce", "malformed-server-first", "valid-server-final",
 	"forged-server-final", "empty-state-server-final", "stale-server-final", "junk", "235", "535"}
 
-func hxB64DecStd(in []byte) ([]byte, bool) {
-	if len(in)%4 != 0 {
-		return nil, false
-	}
-	var inv [256]byte
-	for i := range inv {
-		inv[i] = 0xff
-	}
-	for i := 0; i < 64; i++ {
-		inv[hxB64Tbl[i]] = byte(i)
-	}
-	var out []byte
-	for i := 0; i < len(in); i += 4 {
-		pad := 0
-		if in[i+3] == '=' {
-			pad = 1
-			if in[i+2] == '=' {
-				pad = 2
-			}
-		}
-		var v [4]byte
-		for k := 0; k < 4-pad; k++ {
-			v[k] = inv[in[i+k]]
-		}
-		out = append(out, v[0]<<2|v[1]>>4)
-		if pad < 2 {
-			out = append(out, v[1]<<4|v[2]>>2)
-		}
-		if pad < 1 {
-			out = append(out, v[2]<<6|v[3])
-		}
-	}
-	return out, true
-}
-
-func hxHasPrefix(b []byte, p string) bool {
-	if len(b) < len(p) {
-		return false
-	}
-	for i := 0; i < len(p); i++ {
-		if b[i] != p[i] {
-			return false
-		}
-	}
-	return true
-}
-
 type hxScramSrv struct {
 	password []byte
 	maxMsgs  int
